@@ -16,6 +16,16 @@ Ltac explode H :=
   repeat (first [ discriminate H | break_match_hyp H ]);
   try discriminate H.
 
+(* destruct the scrutinee of an innermost match occurring in the goal *)
+Ltac break_goal_match :=
+  match goal with
+  | |- context [match ?x with _ => _ end] =>
+      lazymatch x with
+      | context [match _ with _ => _ end] => fail
+      | _ => destruct x
+      end
+  end.
+
 Ltac inv_some H := injection H as H; try subst.
 
 Section Lemmas.
